@@ -54,6 +54,9 @@ class BaseInterval(ABC):
             The transformed values.
         """
         vmin, vmax = self.get_limits(values)
+        # integer limits (NumPy integer scalars from integer data, or Python ints) would make
+        # the arithmetic below wrap around or overflow in the data's integer dtype
+        vmin, vmax = float(vmin), float(vmax)
 
         # subtract vmin
         values = np.subtract(values, vmin)
@@ -145,8 +148,8 @@ class CenteredInterval(BaseInterval):
 
         values = np.asarray(values).ravel()
         values = values[np.isfinite(values)]
-        vmin = np.min(values)
-        vmax = np.max(values)
+        vmin = float(np.min(values))
+        vmax = float(np.max(values))
 
         half_range = np.maximum(np.abs(vmin - self.vcenter), np.abs(vmax - self.vcenter))
 
@@ -177,6 +180,9 @@ class QuantileInterval(BaseInterval):
 
         # Filter out invalid values (inf, nan)
         values = values[np.isfinite(values)]
+        if np.issubdtype(values.dtype, np.integer):
+            # np.quantile interpolates in the input dtype, which wraps around for integers
+            values = values.astype(np.float64)
         vmin, vmax = np.quantile(values, (self.lower_quantile, self.upper_quantile))  # type: ignore
 
         return vmin, vmax
